@@ -106,6 +106,9 @@ Proof.
   intros st e. destruct (seqb (e_to e) to_); reflexivity.
 Qed.
 
+Lemma gen_skipped_kind : forall k, g_skipped_kind k = skipped_kind k.
+Proof. intros []; reflexivity. Qed.
+
 (* ------------------------------------------------------------------ sanity_check *)
 Lemma gen_correct_type : forall ls n, g_correct_type ls n = correct_type ls n.
 Proof. reflexivity. Qed.
